@@ -101,7 +101,12 @@ def run_behaviour(acts, baseline, tag, short=None):
             d_ = Path(REPO_DIR[0]) / "tests" / "data" / "jpl"
             config.set("env", "jpl", "files", [str(d_ / "de403_2000-2020.bsp"), str(d_ / "pck00010.tpc"), str(d_ / "gm_de431.tpc")])
             from beyond.env import jpl
-            jpl.create_frames()
+            if sum(map(ord, tag)) % 2:
+                # the other door: frames of the kernel created on demand, the first time an unknown frame name is asked for
+                config.set("env", "jpl", "dynamic_frames", True)
+                fr.get_frame("Mars")
+            else:
+                jpl.create_frames()
             JPL_LOADED[0] = True
             for nm_ in ("Mars", "SolarSystemBarycenter"):
                 frames[nm_] = fr.get_frame(nm_)
